@@ -234,6 +234,15 @@ fn check_model(m: &Model, out: &mut Vec<Viol>) -> u64 {
         if got.iter().any(|g| g.is_err()) || got.iter().map(|g| g.clone().unwrap_or_default()).collect::<Vec<_>>() != expected {
             v.push(("iterator".into(), format!("iter_modules = {got:?}, expected present modules in id order {expected:?}")));
         }
+        // the iterator's other ways of advancing: nth(k) is the k-th present module
+        for k in 0..=expected.len().min(12) {
+            let got = bundle.iter_modules().nth(k).map(|r| r.map(|m| (m.id(), m.data().to_vec())).map_err(|e| e.to_string()));
+            let want = expected.get(k).cloned().map(Ok);
+            if got != want {
+                v.push(("iterator-nth".into(), format!("iter_modules().nth({k}) = {got:?}, the present modules in id order are {expected:?}")));
+                break;
+            }
+        }
         if !is_ram_bundle_slice(&bytes) {
             v.push(("not-recognised".into(), "is_ram_bundle_slice = false on a well-formed bundle".into()));
         }
